@@ -26,6 +26,15 @@ type Env struct {
 	idxAdj   int64 // #i = rangeindex + idxAdj
 	letDepth int
 	headSt   *State // state at the head of the enclosing loop (for head(e))
+	heapSt   *State // when set, heap and world reads use this state (oldheap(e)) while variables use st
+	callRet  func(name string, ord, idx int) (SV, bool)
+}
+
+func (e *Env) hst() *State {
+	if e.heapSt != nil {
+		return e.heapSt
+	}
+	return e.st
 }
 
 func (e *Env) child() *Env {
@@ -236,7 +245,7 @@ func (e *Env) evalIdent(name string) (SV, error) {
 	}
 	if s, ok := v.worlds[name]; ok {
 		_ = s
-		return SV{T: v.getGlobal(e.st, name)}, nil
+		return SV{T: v.getGlobal(e.hst(), name)}, nil
 	}
 	if s, ok := v.specConsts[name]; ok {
 		return SV{T: v.c.Const(name, s)}, nil
@@ -257,7 +266,7 @@ func (e *Env) deref(a SV, x *Expr) (SV, error) {
 		return SV{}, serr("dereference of non-pointer %s in %s", a.GoT, x)
 	}
 	key := v.heapKeyFor(el)
-	return SV{T: v.c.Select(v.getGlobal(e.st, key), a.T), GoT: el}, nil
+	return SV{T: v.c.Select(v.getGlobal(e.hst(), key), a.T), GoT: el}, nil
 }
 
 func (e *Env) fieldSV(a SV, name string, x *Expr) (SV, error) {
@@ -429,6 +438,24 @@ func (e *Env) evalCall(x *Expr) (SV, error) {
 			return SV{}, serr("old() used where no pre-state is available: %s", x)
 		}
 		return e.withState(e.old).Eval(x.Args[0])
+	case "ret":
+		// ret(Callee, n, i): i-th result of the n-th call of Callee executed so far in the verified function
+		if len(x.Args) != 3 || x.Args[0].Kind != "id" || x.Args[1].Kind != "int" || x.Args[2].Kind != "int" || e.callRet == nil {
+			return SV{}, serr("ret(Callee, n, i) is only available in clauses of a function under verification")
+		}
+		sv, ok := e.callRet(x.Args[0].Name, int(x.Args[1].Int.Int64()), int(x.Args[2].Int.Int64()))
+		if !ok {
+			return SV{}, serr("ret(%s, %s, %s): no such call result recorded at this point", x.Args[0].Name, x.Args[1].Int, x.Args[2].Int)
+		}
+		return sv, nil
+	case "oldheap":
+		// variables as they are now, heap objects and world variables as they were at function entry
+		if len(x.Args) != 1 || e.old == nil {
+			return SV{}, serr("oldheap(e) needs a pre-state")
+		}
+		ne := *e
+		ne.heapSt = e.old
+		return ne.Eval(x.Args[0])
 	case "head":
 		if len(x.Args) != 1 {
 			return SV{}, serr("head takes one argument")
@@ -529,6 +556,15 @@ func (e *Env) evalCall(x *Expr) (SV, error) {
 		return SV{T: c.And(c.Cmp(">=", a[0].T, v.getGlobal(e.old, "$alloc")), c.Cmp("<", a[0].T, v.getGlobal(e.st, "$alloc")))}, nil
 	case "$unfold":
 		return SV{}, serr("unfold is only allowed as a hint")
+	case "upd":
+		a, err := e.evalArgs(x.Args)
+		if err != nil {
+			return SV{}, err
+		}
+		if len(a) != 3 || a[0].T.Sort.Kind != KArray || a[1].T.Sort != a[0].T.Sort.Key || a[2].T.Sort != a[0].T.Sort.Elem {
+			return SV{}, serr("upd(array, key, value): ill-sorted in %s", x)
+		}
+		return SV{T: c.Store(a[0].T, a[1].T, a[2].T), GoT: a[0].GoT}, nil
 	case "isdyn", "dyn":
 		// isdyn(x, T): interface value x holds a value of concrete type T; dyn(x, T): that value
 		if len(x.Args) != 2 {
